@@ -38,6 +38,12 @@ package redisemu
 //@ ghost fsBroken bool
 //@ ghost fsClosed bool
 //@ ghost fsReplaced bool
+//@ ghost fsHdrObjNo uint64
+//@ ghost fsHdrRemovals uint32
+//@ ghost fsKeyName string
+//@ ghost fsKeyId uint64
+//@ ghost fsKeyExpires time
+//@ ghost fsKeyAccess time
 
 //@ uf liveUpTo(s []*redisDictItem, n int) int
 //@ axiom forall s []*redisDictItem :: liveUpTo(s, 0) == 0
@@ -102,6 +108,52 @@ package redisemu
 //@ requires [C19] crash.remove: name != fsLivePath
 //@ modifies
 
+// Reading a stream. The library model overwrites the pointee of the argument
+// with an arbitrary value of its type; the contract below keeps the ghost
+// position in the stream and demands the shape save produces: one header, then
+// for each announced record a key header followed by one payload of the Go type
+// that save encodes for the key header's type flag.
+//@ func encoding/gob.NewDecoder
+//@ trusted
+//@ modifies
+//@ ensures result != nil
+
+//@ func encoding/gob.Decoder.Decode
+//@ trusted
+//@ requires [C19] read.header.first: istype(e, *persistHeader) <==> fsHdrs == 0
+//@ requires [C19] read.alternate: istype(e, *persistKeyHeader) ==> fsKeys == fsVals && fsKeys < fsHdrCount
+//@ requires [C19] read.payload.follows: !istype(e, *persistHeader) && !istype(e, *persistKeyHeader) ==> fsKeys == fsVals + 1
+//@ requires [C19] read.payload.string: !istype(e, *persistHeader) && !istype(e, *persistKeyHeader) && flagHasOne(fsFlags, FLAG_KEY_TYPE_STRING) ==> istype(e, *[]byte)
+//@ requires [C19] read.payload.hash: !istype(e, *persistHeader) && !istype(e, *persistKeyHeader) && !flagHasOne(fsFlags, FLAG_KEY_TYPE_STRING) && flagHasOne(fsFlags, FLAG_KEY_TYPE_HASH_TABLE) ==> istype(e, *map[string]string)
+//@ requires [C19] read.payload.set: !istype(e, *persistHeader) && !istype(e, *persistKeyHeader) && !flagHasOne(fsFlags, FLAG_KEY_TYPE_STRING|FLAG_KEY_TYPE_HASH_TABLE) && flagHasOne(fsFlags, FLAG_KEY_TYPE_SET) ==> istype(e, *map[string]struct{})
+//@ requires [C19] read.payload.list: !istype(e, *persistHeader) && !istype(e, *persistKeyHeader) && !flagHasOne(fsFlags, FLAG_KEY_TYPE_STRING|FLAG_KEY_TYPE_HASH_TABLE|FLAG_KEY_TYPE_SET) ==> flagHasOne(fsFlags, FLAG_KEY_TYPE_LIST) && istype(e, *[][]byte)
+//@ modifies ghost.fsHdrs ghost.fsHdrCount ghost.fsKeys ghost.fsVals ghost.fsFlags ghost.fsHdrObjNo ghost.fsHdrRemovals ghost.fsKeyName ghost.fsKeyId ghost.fsKeyExpires ghost.fsKeyAccess
+//@ effect if result == nil && istype(e, *persistHeader) : fsHdrs = fsHdrs + 1
+//@ effect if result == nil && istype(e, *persistHeader) : fsHdrCount = int(unbox(e, *persistHeader).Count)
+//@ effect if result == nil && istype(e, *persistHeader) : fsHdrObjNo = unbox(e, *persistHeader).DataObjectNumber
+//@ effect if result == nil && istype(e, *persistHeader) : fsHdrRemovals = unbox(e, *persistHeader).Removals
+//@ effect if result == nil && istype(e, *persistKeyHeader) : fsKeys = fsKeys + 1
+//@ effect if result == nil && istype(e, *persistKeyHeader) : fsFlags = unbox(e, *persistKeyHeader).Flags
+//@ effect if result == nil && istype(e, *persistKeyHeader) : fsKeyName = unbox(e, *persistKeyHeader).Key
+//@ effect if result == nil && istype(e, *persistKeyHeader) : fsKeyId = unbox(e, *persistKeyHeader).Id
+//@ effect if result == nil && istype(e, *persistKeyHeader) : fsKeyExpires = unbox(e, *persistKeyHeader).ExpiresAt
+//@ effect if result == nil && istype(e, *persistKeyHeader) : fsKeyAccess = unbox(e, *persistKeyHeader).LastAccess
+//@ effect if result == nil && !istype(e, *persistHeader) && !istype(e, *persistKeyHeader) : fsVals = fsVals + 1
+
+//@ func os.Open
+//@ trusted
+//@ modifies
+
+//@ func newRedisDictFromStringTable
+//@ trusted
+//@ modifies alloc
+//@ ensures result != nil && result.scratch && !result.dirty && !result.keyspace
+
+//@ func newRedisDictFromKeyTable
+//@ trusted
+//@ modifies alloc
+//@ ensures result != nil && result.scratch && !result.dirty && !result.keyspace
+
 //@ func redisDict.toStringTable
 //@ trusted
 //@ pure
@@ -127,3 +179,22 @@ package redisemu
 //@ ensures [C19] crash.atomic: fsLiveOK
 //@ ensures [C19] complete: err == nil ==> fsHdrs == 1 && fsKeys == ds.data.count && fsVals == ds.data.count && fsHdrCount == ds.data.count && !fsBroken
 //@ ensures [C19] replaced: err == nil <==> fsReplaced
+
+//@ func dataStore.load
+//@ prop C19 C08
+//@ safetyprop none
+//@ requires ds != nil
+//@ requires [C08,C16] locked: held
+//@ ghostentry fsHdrs = 0
+//@ ghostentry fsKeys = 0
+//@ ghostentry fsVals = 0
+//@ modifies dataStore.data dataStore.dataObjectNumber redisDict redisDictItem storeKey storeList listItem persistHeader persistKeyHeader cell alloc ghost.mutated ghost.fsHdrs ghost.fsHdrCount ghost.fsKeys ghost.fsVals ghost.fsFlags ghost.fsHdrObjNo ghost.fsHdrRemovals ghost.fsKeyName ghost.fsKeyId ghost.fsKeyExpires ghost.fsKeyAccess ghost.fsClosed
+//@ loop 1 invariant fsHdrs == 1 && fsHdrCount == int(ph.Count) && fsHdrObjNo == ph.DataObjectNumber && fsHdrRemovals == ph.Removals && err == nil
+//@ loop 1 invariant fsKeys == fsVals && fsKeys == i && 0 <= i && i <= fsHdrCount
+//@ loop 1 invariant ds.data == old(ds.data) && ds.dataObjectNumber == old(ds.dataObjectNumber) && data != nil && data.scratch && !data.keyspace && held
+//@ assertbefore "data.store(pkh.Key, sk)" [C19] record.carried: pkh.Key == fsKeyName && sk.id == fsKeyId && sk.flags == fsFlags && sk.expiresAt == fsKeyExpires && sk.lastAccess == fsKeyAccess
+//@ assertbefore "data.store(pkh.Key, sk)" [C19] record.payload: (flagHasOne(fsFlags, FLAG_KEY_TYPE_STRING) ==> istype(sk.payload, []byte)) && (!flagHasOne(fsFlags, FLAG_KEY_TYPE_STRING) && flagHasOne(fsFlags, FLAG_KEY_TYPE_HASH_TABLE|FLAG_KEY_TYPE_SET) ==> istype(sk.payload, *redisDict) && unbox(sk.payload, *redisDict) != nil) && (!flagHasOne(fsFlags, FLAG_KEY_TYPE_STRING|FLAG_KEY_TYPE_HASH_TABLE|FLAG_KEY_TYPE_SET) ==> istype(sk.payload, *storeList) && unbox(sk.payload, *storeList) != nil)
+//@ ensures [C19] all.records: err == nil ==> fsHdrs == 1 && fsKeys == fsHdrCount && fsVals == fsHdrCount
+//@ ensures [C19] header.restored: err == nil ==> ds.dataObjectNumber == fsHdrObjNo && ds.data != nil && ds.data.removals == int(fsHdrRemovals) && !ds.data.dirty
+//@ ensures [C19] failed.untouched: err != nil ==> ds.data == old(ds.data)
+//@ ensures [C19] failed.untouched.ids: err != nil ==> ds.dataObjectNumber == old(ds.dataObjectNumber)
